@@ -25,3 +25,6 @@ import RenetVerif.Lemmas.SrcEquiv.Server
 import RenetVerif.Lemmas.SrcEquiv.NcCodec
 import RenetVerif.Lemmas.SrcEquiv.NcServer
 import RenetVerif.Lemmas.SrcEquiv.NcServerSend
+import RenetVerif.Lemmas.SrcEquiv.NcServerRecv
+import RenetVerif.Lemmas.SrcEquiv.NcTokenGen
+import RenetVerif.Lemmas.SrcEquiv.NcClient
